@@ -302,3 +302,7 @@ mod tests {
     
     
 }
+
+/// verification hook (compiled only under `cargo kani` or `--cfg reactive_mutiny_verif`): harnesses live outside this repository
+#[cfg(any(kani, reactive_mutiny_verif))]
+pub(crate) mod verif_hooks { include!(concat!(env!("REACTIVE_MUTINY_VERIF_DIR"), "/kani/uni_zero_copy_atomic.rs")); }
